@@ -146,13 +146,13 @@ HANDCRAFTED = [
 
 class World:
     """the real state built through the MIR"""
-    def __init__(self, it, prog, hist, thr=None, net=2, difficulties=None):
+    def __init__(self, it, prog, hist, thr=None, net=2, difficulties=None, sh=None, slicer=None):
         self.it, self.prog, self.hist = it, prog, hist
         btc.install(it, STUBS)
         led = self.led = L.Ledger(it, prog, net)
         ts = hist.ts
-        self.sh = it.fresh('stable_h', 'u32', 10, 1 << 30)
-        us = self.us = led.utxo_set(self.sh)
+        self.sh = it.fresh('stable_h', 'u32', 10, 1 << 30) if sh is None else SInt(sh, 'u32')
+        us = self.us = led.utxo_set(self.sh, slicer)
         self.val = {}
         for k, (t, v, kind, below) in enumerate(STABLE):
             val = it.fresh('sv%d' % k, 'u64', 0, 1 << 50)
